@@ -115,7 +115,7 @@ fn c13_enc_to_direct() {
     e.0.__bindgen_anon_1 = libc::io_uring_sqe__bindgen_ty_1 { off: libc::IORING_FILE_INDEX_ALLOC as u64 };
     e.0.__bindgen_anon_2 = libc::io_uring_sqe__bindgen_ty_2 { addr: std::ptr::from_ref(&res.1).addr() as u64 };
     e.0.len = 1;
-    assert!(sqe_bytes(&s) == sqe_bytes(&e), "FILES_UPDATE{ALLOC} of one descriptor; the in/out word is the one inside Resources (C01)");
+    assert!(sqe_bytes(&s) == sqe_bytes(&e), "FILES_UPDATE(ALLOC) of one descriptor; the in/out word is the one inside Resources (C01)");
     assert!(res.1 == fd);
     kani::cover!(true, "end");
 }
